@@ -23,7 +23,7 @@ the GENERATED `verify_rfc6492` over this CA's child table; `process` is the mode
 for the child record of the sender; `sign` puts the addressed CA's identity key on the reply; the CMS
 logger never fails.
 -/
-import KrillModel.Generated.PureFns
+import KrillModel.Generated.PureFnsC12
 import KrillModel.Proto.Cms
 namespace KM.Props.C12Src
 open KM.Proto
